@@ -11,6 +11,7 @@ def run(res, tier, replay=None):
     c15.run_d(prog, res)
     c15.run_e(prog, res)
     c15.run_f(prog, res)
+    c15.run_g(prog, res)
     cg = callgraph.CallGraph(prog)
     recursion.run(prog, res, "C15", "C15.b", roots=["sexp_equalp_op", "sexp_hash"], floor=2, cg=cg)
     res.assumptions = common.ASSUMPTIONS
@@ -18,7 +19,7 @@ def run(res, tier, replay=None):
         "C15 structural clauses: (a) kind-set dataflow over sexp_equalp_bound and hash_one: the heap tags for which equal? "
         "returns through a semantic comparator (bignum value compare, flonum eqv) are disjoint from the tags whose raw "
         "trailing bytes hash_one hashes - otherwise two equal? values hash differently; (b) the recursion of both functions "
-        "passes through a verified depth bound; (c) hash_one folds a value's machine word into the hash only where the value is an immediate (never a heap address); (d) the C hash-table primitives update the size slot on exactly the paths that link/unlink a chain entry. (e) sexp_equalp_bound writes every recursive call's result back into its work budget. Not decided: hash-table operation histories, (chibi equiv), eqv? on numbers.")
+        "passes through a verified depth bound; (c) hash_one folds a value's machine word into the hash only where the value is an immediate (never a heap address); (d) the C hash-table primitives update the size slot on exactly the paths that link/unlink a chain entry. (e) sexp_equalp_bound writes every recursive call's result back into its work budget. (g) a chain walk in lib/srfi/69/hash.c that advances its cursor through a field of the current cell is not reached by a store to that field of the cursor (the resize relinking cells in place would drop every entry of a bucket but the first). Not decided: hash-table operation histories, (chibi equiv), eqv? on numbers.")
     if tier == "thorough":
         common.thorough_mutations(res, "C15", {
             "C15.a": lambda p, r: c15.run_a(p, r),
@@ -26,5 +27,6 @@ def run(res, tier, replay=None):
             "C15.d": lambda p, r: c15.run_d(p, r),
             "C15.e": lambda p, r: c15.run_e(p, r, floor=0),
             "C15.f": lambda p, r: c15.run_f(p, r, floor=0),
+            "C15.g": lambda p, r: c15.run_g(p, r, floor=0),
             "C15.b": lambda p, r: recursion.run(p, r, "C15", "C15.b", roots=["sexp_equalp_op", "sexp_hash"], floor=0),
         })
